@@ -307,7 +307,7 @@ func c11Registry(c *Ctx) {
 	}
 	c.Check(n >= 3, "C11.M4-registry", "default context › factories", token.NoPos, itoa(n)+" factories registered", "expected 3 default factories, found "+itoa(n))
 	// fallback
-	if nt := c.Func(metaPkg, "metadataContext.newTransport"); nt != nil {
+	if nt := c.RoleFn("metadata.factory"); nt != nil {
 		okFallback, okHit := false, false
 		for _, b := range nt.SSA.Blocks {
 			if ret, isRet := b.Instrs[len(b.Instrs)-1].(*ssa.Return); isRet {
@@ -477,7 +477,7 @@ func c11Cursor(c *Ctx) {
 		c.Bad("C11.M6-cursor-discipline", key, rd.In.Pos(), "cursor idiom not recognised: "+abbreviate(B.String()))
 	}
 	// the protocol decoded is the one selected by the code at the cursor
-	_, okSel := Match(Call("metadataContext).newTransport", Any(), Extract("0", Call("go-varint.FromUvarint", Is(B)))), rd.X.Args[0])
+	_, okSel := Match(c.RoleCall("metadata.factory", Any(), Extract("0", Call("go-varint.FromUvarint", Is(B)))), rd.X.Args[0])
 	c.Check(okSel, "C11.M6-cursor-discipline", key+" › protocol chosen by the code at the cursor", rd.In.Pos(), "the protocol is chosen from the varint at the current position", "protocol not chosen from the code at the current cursor position")
 	c.Floor("C11.M6-cursor-discipline", 3)
 }
